@@ -677,6 +677,31 @@ func c09Jobs() []sjob {
 			}})
 		}
 	}
+	// sequential plane: a connection abandons a login half-way and closes; a NEW connection then runs a script under the
+	// same session id. Nothing of the dead connection may reach it.
+	pending := [][]rPkt{{{Kind: "ascii", User: ""}}, {{Kind: "ascii", User: ""}, {Kind: "cont", Msg: "own"}}, {{Kind: "ascii", User: "viagroup"}}}
+	for pi, pre := range pending {
+		for b := range scripts {
+			pi, pre, b := pi, pre, b
+			jobs = append(jobs, sjob{fmt.Sprintf("abandoned login %d on a closed connection, then script %d on a new connection with the same session id", pi, b), func(x *sx) {
+				w := newSWorldR(e.Cfg, nil)
+				w.serve()
+				var r0, r1 [][]byte
+				c0 := w.W.NewConn(0, srvx.Addr4(10, 0, 0, 1, 1900))
+				sclient(w, c0, wire(pre), &r0, true)
+				for !c0.Closed() {
+					c0.Await(1 << 30)
+				}
+				c1 := w.W.NewConn(1, srvx.Addr4(10, 0, 0, 2, 1900))
+				sclient(w, c1, wire(scripts[b]), &r1, true)
+				w.shutdown()
+				if got := transcriptOf(key, r1); got != alone[b] {
+					x.fail("C09/transcript-differs-after-closed-connection", fmt.Sprintf("script %d after an abandoned login on another (closed) connection: transcript %s differs from its transcript alone %s", b, got, alone[b]))
+				}
+				x.obs = "ok"
+			}})
+		}
+	}
 	return jobs
 }
 
